@@ -2,6 +2,7 @@ package rules
 
 import (
 	"go/ast"
+	"go/token"
 	"go/types"
 
 	"verif/mlbcheck/chk"
@@ -24,6 +25,12 @@ func init() {
 			"first evaluated); a node seen for the first time requests no re-sync.",
 		Run: runC09,
 		Mutants: []Mutant{
+			{Name: "orphan-refusal-not-retried", File: "speaker/main.go",
+				Old: "\"msg\", \"new configuration rejected\")\n\t\t\treturn controllers.SyncStateError", New: "\"msg\", \"new configuration rejected\")\n\t\t\treturn controllers.SyncStateErrorNoRetry", Expect: "REFUSAL-RETRIED"},
+			{Name: "membership-event-dropped-for-updates", File: "internal/speakerlist/speakerlist.go",
+				Old: "\t\t\tsl.client.ForceSync()\n\t\tcase <-sl.stopCh:", New: "\t\t\tif e.Event != memberlist.NodeUpdate {\n\t\t\t\tsl.client.ForceSync()\n\t\t\t}\n\t\tcase <-sl.stopCh:", Expect: "MEMBERSHIP"},
+			{Name: "withdraw-list-capped", File: "internal/bgp/native/messages.go",
+				Old: "func sendWithdraw(w io.Writer, prefixes []*net.IPNet) error {\n\tvar b bytes.Buffer\n", New: "func sendWithdraw(w io.Writer, prefixes []*net.IPNet) error {\n\tvar b bytes.Buffer\n\tif len(prefixes) > 800 {\n\t\tprefixes = prefixes[:800]\n\t}\n", Expect: "WHOLE-WITHDRAW"},
 			{Name: "node-update-filter-needs-condition-on-both-sides", File: "internal/k8s/controllers/node_controller.go",
 				Old: "\t\t\tif k8snodes.IsNetworkUnavailable(oldNode) != k8snodes.IsNetworkUnavailable(newNode) {\n\t\t\t\treturn true\n\t\t\t}\n",
 				New: "\t\t\tif len(oldNode.Status.Conditions) > 0 && k8snodes.IsNetworkUnavailable(oldNode) != k8snodes.IsNetworkUnavailable(newNode) {\n\t\t\t\treturn true\n\t\t\t}\n", Expect: "NODE-EVENTS"},
@@ -62,6 +69,9 @@ func init() {
 }
 
 func runC09(p *chk.Prog, r *chk.Report) {
+	c17WholeWithdraw(p, r)
+	membershipRule(p, r)
+	c09RefusalRetried(p, r)
 	c05Publish(p, r)
 	c13Refcount(p, r)
 	c09Exit(p, r)
@@ -517,4 +527,253 @@ func c09Resync(p *chk.Prog, r *chk.Report) {
 			x.Check("isNodeAvailableChanged:"+pred, ic.Pos(), ok && n > 0 && len(g.FindPat("k8snodes."+pred+"(O)", chk.H("O", old))) > 0, "", "a change of "+pred+" between the stored and the new node is not reported")
 		}
 	}
+}
+
+// membershipRule (shared by C04, C09, C12): the election runs over the speakers memberlist reports alive, and every
+// change of that membership is followed by a resync.
+func membershipRule(p *chk.Prog, r *chk.Report) {
+	x := r.Rule("MEMBERSHIP", "B path", "speakerlist.(*SpeakerList).UsableSpeakers reports Disabled only behind sl.ml == nil; otherwise Nodes holds the name of every member of sl.ml.Members() (a loop that is neither cut short nor skips a member) and Disabled is false; in memberlistWatchEvents every event received from sl.mlEventCh reaches sl.client.ForceSync() before the next one is awaited", 4)
+	f := need(x, p, "internal/speakerlist", "SpeakerList", "UsableSpeakers")
+	if f != nil {
+		g := f.Graph()
+		// "memberlist does not run", also spelt through the Disabled field of a local answer record that was set from that
+		// very test (`info := SpeakerListInfo{Disabled: sl.ml == nil}; if info.Disabled`)
+		disabledFlag := func(e ast.Expr) bool {
+			se, isSel := ast.Unparen(e).(*ast.SelectorExpr)
+			if !isSel || se.Sel.Name != "Disabled" {
+				return false
+			}
+			o := f.RootObj(se.X)
+			if v, isVar := o.(*types.Var); !isVar || v.IsField() || v.Pkg() == nil || v.Parent() == v.Pkg().Scope() {
+				return false
+			}
+			n, okDef := 0, false
+			for _, d := range storesRootedAt(f, o) {
+				as, isAs := d.(*ast.AssignStmt)
+				if !isAs || len(as.Lhs) != len(as.Rhs) {
+					return false
+				}
+				for i, l := range as.Lhs {
+					if f.RootObj(l) != o {
+						continue
+					}
+					if ls, isS := ast.Unparen(l).(*ast.SelectorExpr); isS && ls.Sel.Name == "Disabled" {
+						n++
+						okDef = f.MatchNew("RECV.ml == nil", ast.Unparen(as.Rhs[i])) != nil
+					} else if lit, isLit := ast.Unparen(as.Rhs[i]).(*ast.CompositeLit); isLit {
+						for _, el := range lit.Elts {
+							if k, ok := el.(*ast.KeyValueExpr); ok && k.Key.(*ast.Ident).Name == "Disabled" {
+								n++
+								okDef = f.MatchNew("RECV.ml == nil", ast.Unparen(k.Value)) != nil
+							}
+						}
+					}
+				}
+			}
+			return n == 1 && okDef
+		}
+		noML := chk.GSame(g.GPat(true, "RECV.ml == nil"), chk.GBool(true, disabledFlag))
+		nRet := 0
+		hasML := chk.GSame(g.GPat(false, "RECV.ml == nil"), chk.GBool(false, disabledFlag))
+		for _, rt := range g.Returns() {
+			rr := retResults(rt)
+			if len(rr) != 1 {
+				continue
+			}
+			nRet++
+			// the two components of the answer: from the literal returned, or from the local record that is returned
+			// (its literal plus the stores into its fields)
+			var dis, nodes ast.Expr
+			okShape := true
+			if lit, isLit := ast.Unparen(rr[0]).(*ast.CompositeLit); isLit {
+				for _, el := range lit.Elts {
+					if k, ok := el.(*ast.KeyValueExpr); ok {
+						switch k.Key.(*ast.Ident).Name {
+						case "Disabled":
+							dis = k.Value
+						case "Nodes":
+							nodes = k.Value
+						}
+					}
+				}
+			} else if id, isId := ast.Unparen(rr[0]).(*ast.Ident); isId && f.ObjOf(id) != nil {
+				o := f.ObjOf(id)
+				nDis := 0
+				for _, d := range storesRootedAt(f, o) {
+					as, isAs := d.(*ast.AssignStmt)
+					if !isAs || len(as.Lhs) != len(as.Rhs) {
+						okShape = false
+						continue
+					}
+					for i, l := range as.Lhs {
+						if f.RootObj(l) != o {
+							continue
+						}
+						if se, isSel := ast.Unparen(l).(*ast.SelectorExpr); isSel {
+							switch se.Sel.Name {
+							case "Disabled":
+								dis = as.Rhs[i]
+								nDis++
+							case "Nodes":
+								nodes = se
+							}
+							continue
+						}
+						if _, isIx := ast.Unparen(l).(*ast.IndexExpr); isIx {
+							continue // an insertion into the record's node set
+						}
+						lit, isLit := ast.Unparen(as.Rhs[i]).(*ast.CompositeLit)
+						if !isLit {
+							okShape = false
+							continue
+						}
+						for _, el := range lit.Elts {
+							if k, ok := el.(*ast.KeyValueExpr); ok {
+								switch k.Key.(*ast.Ident).Name {
+								case "Disabled":
+									dis = k.Value
+									nDis++
+								case "Nodes":
+									nodes = k.Value
+								}
+							}
+						}
+					}
+				}
+				if nDis > 1 {
+					okShape = false
+				}
+			} else {
+				okShape = false
+			}
+			if !okShape {
+				x.Fail("UsableSpeakers:result-literal", rt.Pos(), "the result is not a SpeakerListInfo literal (or a local record built from one)")
+				continue
+			}
+			isNoML := func(e ast.Expr) bool {
+				return e != nil && (f.MatchNew("RECV.ml == nil", ast.Unparen(f.Resolve(e))) != nil || f.MatchNew("RECV.ml == nil", ast.Unparen(e)) != nil)
+			}
+			switch {
+			case g.Dominated(rt, noML):
+				// the answer without memberlist: every known node is a candidate
+				x.Check("UsableSpeakers:disabled-without-memberlist", rt.Pos(), dis != nil && (f.IsConstBool(dis, true) || isNoML(dis)), "", "without memberlist the answer does not say that membership tracking is disabled: nobody is a candidate")
+			case g.Dominated(rt, hasML):
+				okDis := dis == nil || f.IsConstBool(dis, false) || isNoML(dis)
+				x.Check("UsableSpeakers:disabled-only-without-memberlist", rt.Pos(), okDis, "", "membership tracking is reported as disabled although memberlist runs: the election then runs over every known node, including nodes whose speaker is dead, and the lone live speaker defers to a node nobody answers for")
+				okAll := false
+				if nodes != nil {
+					isM := func(e ast.Expr) bool { return f.SameExpr(e, nodes) }
+					for _, rs := range f.RangeLoops(func(e ast.Expr) bool {
+						return f.MatchNew("RECV.ml.Members()", e) != nil || definedBy(g, "RECV.ml.Members()")(e)
+					}) {
+						ins := g.Find(func(nd ast.Node) bool {
+							return chk.InBody(rs, nd) && f.IsAssignPat("M[N.Name]", "true", chk.H("M", isM), chk.H("N", rangeVal(f, rs)))(nd)
+						})
+						if len(ins) == 1 && !loopCanSkip(g, rs, func(nd ast.Node) bool { return nd == ins[0].Top }) && !loopHasBreak(g, rs) && g.AfterLoop(rt, rs) {
+							okAll = true
+							for _, r2 := range g.Returns() {
+								if chk.InBody(rs, r2.Node) {
+									okAll = false
+								}
+							}
+						}
+					}
+					// nothing is taken out again
+					if len(g.FindPat("delete(M, K)", chk.H("M", isM))) > 0 {
+						okAll = false
+					}
+				}
+				x.Check("UsableSpeakers:every-member-is-usable", rt.Pos(), okAll, "", "with memberlist running the usable speakers are not exactly the names of all current members")
+			default:
+				okDis := dis == nil || f.IsConstBool(dis, false)
+				x.Check("UsableSpeakers:disabled-only-without-memberlist", rt.Pos(), okDis, "", "membership tracking is reported as disabled although memberlist runs: the election then runs over every known node, including nodes whose speaker is dead, and the lone live speaker defers to a node nobody answers for")
+				x.Check("UsableSpeakers:answer-decided-by-memberlist", rt.Pos(), false, "", "an answer is given that is neither the one without memberlist nor the one with it")
+			}
+		}
+		x.Check("UsableSpeakers:answers", f.Pos(), nRet >= 2, "", "expected the disabled and the enabled answer")
+	}
+	w := need(x, p, "internal/speakerlist", "SpeakerList", "memberlistWatchEvents")
+	if w != nil {
+		g := w.Graph()
+		n := 0
+		ast.Inspect(w.Body, func(nd ast.Node) bool {
+			cc, ok := nd.(*ast.CommClause)
+			if !ok || cc.Comm == nil {
+				return true
+			}
+			recv := false
+			ast.Inspect(cc.Comm, func(m ast.Node) bool {
+				if u, isU := m.(*ast.UnaryExpr); isU && u.Op == token.ARROW && w.MatchNew("RECV.mlEventCh", u.X) != nil {
+					recv = true
+				}
+				return true
+			})
+			if !recv {
+				return true
+			}
+			n++
+			ends := g.RegionEnds(caseBlock(g, cc), cc, chk.GEvent(w.ContainsPat("RECV.client.ForceSync()")))
+			okSync := len(ends) > 0
+			for _, e := range ends {
+				if !e.OK {
+					okSync = false
+				}
+			}
+			x.Check("memberlistWatchEvents:every-event-forces-a-sync", cc.Pos(), okSync, "", "a membership event can be consumed without forcing a resync (a join of a member seen before, say): the survivors keep announcing what the returning speaker now also announces, or nobody takes over")
+			return true
+		})
+		x.Check("memberlistWatchEvents:event-case", w.Pos(), n == 1, "", "expected one receive from sl.mlEventCh")
+	}
+}
+
+// c09RefusalRetried: a configuration the speaker refuses because of what it currently announces is asked for again.
+func c09RefusalRetried(p *chk.Prog, r *chk.Report) {
+	x := r.Rule("REFUSAL-RETRIED", "B path", "in speaker.(*controller).SetConfig every return that is not preceded by `c.config = cfg` reports an error state; the refusal that depends on the announced addresses (behind poolFor(cfg.Pools, ip) == \"\") reports SyncStateError - the one state on which the ConfigReconciler forgets the configuration it remembered and retries", 2)
+	f := need(x, p, "speaker", "controller", "SetConfig")
+	if f == nil {
+		return
+	}
+	g := f.Graph()
+	cfg := isParamIdx(f, 1)
+	stored := chk.GEvent(f.IsAssignPat("RECV.config", "C", chk.H("C", cfg)))
+	orphan := chk.GSame(g.GPat(true, `poolFor(C.Pools, IP) == ""`, chk.H("C", cfg)), g.GPat(true, `P == ""`, chk.H("P", definedBy(g, "poolFor(C.Pools, IP)", chk.H("C", cfg)))))
+	nOrphan := 0
+	for _, rt := range g.Returns() {
+		rr := retResults(rt)
+		if len(rr) != 1 {
+			continue
+		}
+		isErr := isObjNamed(f, ctrlPkg+".SyncStateError")(rr[0])
+		isNoRetry := isObjNamed(f, ctrlPkg+".SyncStateErrorNoRetry")(rr[0])
+		if g.Dominated(rt, orphan) {
+			nOrphan++
+			x.Check("SetConfig:orphan-refusal-is-retried", rt.Pos(), isErr, "", "the configuration refused because an announced address would lose its pool is not reported as SyncStateError: the reconciler keeps it as the current one, drops every later identical configuration as unchanged, and the speaker stays on the old pools and peers for good")
+			continue
+		}
+		if !g.Dominated(rt, stored) {
+			x.Check("SetConfig:not-applied-is-an-error", rt.Pos(), isErr || isNoRetry, "", "SetConfig reports success without having stored the configuration")
+		}
+	}
+	x.Check("SetConfig:orphan-refusal", f.Pos(), nOrphan >= 1, "", "no refusal behind poolFor(cfg.Pools, ip) == \"\"")
+}
+
+// storesRootedAt lists the assignments (outside function literals) one of whose targets is the variable itself, a field
+// of it or an element reached through it.
+func storesRootedAt(f *chk.Fn, o types.Object) []ast.Node {
+	var out []ast.Node
+	if o == nil {
+		return nil
+	}
+	chk.InspectNoLit(f.Body, func(n ast.Node) bool {
+		if as, ok := n.(*ast.AssignStmt); ok {
+			for _, l := range as.Lhs {
+				if f.RootObj(l) == o {
+					out = append(out, as)
+					break
+				}
+			}
+		}
+		return true
+	})
+	return out
 }
